@@ -274,6 +274,10 @@ class ScaleAnalysis:
         if n.attr in SLOT and (base_t & {"TimePoint", "Duration",
                                          "TimeZone"}):
             return Q(SLOT[n.attr])
+        if n.attr in SLOT and n.attr.startswith("_") and not base_t:
+            # the private slot names belong to the value classes only: an
+            # object of unknown type read through one is one of them
+            return Q(SLOT[n.attr])
         pub = "_" + n.attr
         if pub in SLOT and (base_t & {"Duration", "TimeZone"}):
             return Q(SLOT[pub])          # read-only properties of Duration
@@ -456,6 +460,21 @@ class ScaleAnalysis:
                     v = self.ev(st.value, env, f)
                     for t in st.targets:
                         self.assign(t, v, env, st, f)
+                        # properties["time_zone_minute"] = ...: an item
+                        # stored under the name of a constructor keyword is
+                        # a value of that keyword's unit
+                        if isinstance(t, ast.Subscript) and isinstance(
+                                t.slice, ast.Constant) and isinstance(
+                                    v, Q):
+                            for cname in ("TimePoint", "Duration"):
+                                u_ = self.kw.get(cname, {}).get(
+                                    t.slice.value)
+                                if u_ is not None:
+                                    self.require(
+                                        v, Q(u_), f, st,
+                                        "item %r (a %s keyword)" % (
+                                            t.slice.value, cname))
+                                    break
                 elif isinstance(st, ast.AugAssign):
                     v = self.ev(st.value, env, f)
                     cur = self.ev(st.target, env, f)
